@@ -50,7 +50,7 @@ func mutate(r *gen.Rand, text []byte) ([]byte, string) {
 	rawBytes := map[int]byte{} // rune index -> single raw byte (not UTF-8)
 	n := r.Range(1, 3)
 	for k := 0; k < n; k++ {
-		switch op := r.Intn(14); op {
+		switch op := r.Intn(16); op {
 		case 0, 1: // another letter/digit/punctuation where text is
 			p := pick(textPos)
 			c := gen.Pick(r, alnum)
@@ -139,6 +139,17 @@ func mutate(r *gen.Rand, text []byte) ([]byte, string) {
 				// positions shifted: stop mutating by index
 				return []byte(string(rs)), strings.Join(ops, ";")
 			}
+		case 14, 15: // a sign in front of a zero-padded number
+			var zs []int
+			for _, p := range digitPos {
+				if rs[p] == '0' && p+1 < len(rs) && unicode.IsDigit(rs[p+1]) {
+					zs = append(zs, p)
+				}
+			}
+			p := pick(zs)
+			c := gen.Pick(r, []rune{'-', '-', '+'})
+			ops = append(ops, fmt.Sprintf("sign@%d=%c", p, c))
+			rs[p] = c
 		case 13: // letter where a digit was (numeric fields parsed leniently)
 			p := pick(digitPos)
 			c := gen.Pick(r, []rune("AZ -+.x"))
